@@ -1946,6 +1946,37 @@ def _induction_vars(fn):
     return changed[0]
 
 
+def _yield_from_genexp(fn):
+    """yield from (E for x in R if C)   ->   for x in R: if C: yield E"""
+    for n in ast.walk(fn):
+        for fld in ('body', 'orelse', 'finalbody'):
+            blk = getattr(n, fld, None)
+            if not (isinstance(blk, list) and blk and isinstance(blk[0], ast.stmt)):
+                continue
+            for i, st in enumerate(blk):
+                if isinstance(st, ast.Expr) and isinstance(st.value, ast.YieldFrom) and isinstance(st.value.value, (ast.GeneratorExp, ast.ListComp)):
+                    g = st.value.value
+                    if isinstance(g, ast.ListComp) and not all(_pure(x) for x in [g.elt]):
+                        continue
+                    inner = [ast.Expr(value=ast.Yield(value=g.elt))]
+                    for comp in reversed(g.generators):
+                        if comp.is_async:
+                            inner = None
+                            break
+                        for c_ in reversed(comp.ifs):
+                            inner = [ast.If(test=c_, body=inner, orelse=[])]
+                        inner = [ast.For(target=comp.target, iter=comp.iter, body=inner, orelse=[])]
+                    if inner is None:
+                        continue
+                    tnames = {y.id for comp in g.generators for y in ast.walk(comp.target) if isinstance(y, ast.Name)}
+                    if any(isinstance(y, ast.Name) and y.id in tnames for y in ast.walk(fn) if not any(y is z for z in ast.walk(g))):
+                        continue        # the comprehension variable would leak into a scope that uses the same name
+                    blk[i] = ast.copy_location(inner[0], st)
+                    ast.fix_missing_locations(fn)
+                    return True
+    return False
+
+
 def _modern_syntax(fn):
     """statement-level lowering of newer syntax to the forms the rules know:
          if (n := E) > k: ..        ->  n = E ; if n > k: ..           (the named expression is the first thing the statement evaluates)
@@ -2698,6 +2729,66 @@ def _adjacent_copies(fn):
     return False
 
 
+def _globals_subscripts(fn):
+    """globals()['name'] (read or written) inside a function is the module variable `name`:  m = globals() ; m['x'] = v   ->   global x ; x = v"""
+    def is_globals_call(e):
+        return isinstance(e, ast.Call) and isinstance(e.func, ast.Name) and e.func.id == 'globals' and not e.args and not e.keywords
+    if not any(is_globals_call(x) for x in ast.walk(fn)):
+        return False
+    if any(isinstance(x, ast.Name) and x.id == 'globals' and isinstance(x.ctx, ast.Store) for x in ast.walk(fn)):
+        return False
+    info = _FnInfo(fn)
+    # aliases: locals bound once to globals() and only ever subscripted with constant strings
+    aliases = set()
+    for asg in [n for n in ast.walk(fn) if isinstance(n, ast.Assign)]:
+        if len(asg.targets) == 1 and isinstance(asg.targets[0], ast.Name) and is_globals_call(asg.value) and info.single(asg.targets[0].id):
+            nm = asg.targets[0].id
+            lds = info.loads(nm)
+            if lds and all(isinstance(info.parents.get(id(ld)), ast.Subscript) and info.parents[id(ld)].value is ld and isinstance(info.parents[id(ld)].slice, ast.Constant)
+                           and isinstance(info.parents[id(ld)].slice.value, str) for ld in lds):
+                aliases.add(nm)
+    subs = []
+    for x in ast.walk(fn):
+        if isinstance(x, ast.Subscript) and isinstance(x.slice, ast.Constant) and isinstance(x.slice.value, str) and x.slice.value.isidentifier() \
+                and (is_globals_call(x.value) or (isinstance(x.value, ast.Name) and x.value.id in aliases)):
+            subs.append(x)
+    if not subs:
+        return False
+    # every globals() call must be consumed that way
+    used = {id(x.value) for x in subs}
+    for x in ast.walk(fn):
+        if is_globals_call(x) and id(x) not in used:
+            par = info.parents.get(id(x))
+            if not (isinstance(par, ast.Assign) and par.value is x and isinstance(par.targets[0], ast.Name) and par.targets[0].id in aliases):
+                return False
+    names = {x.slice.value for x in subs}
+    written = {x.slice.value for x in subs if isinstance(x.ctx, (ast.Store, ast.Del))}
+    # the names must not be locals / parameters of this function
+    declared = {nm for x in ast.walk(fn) if isinstance(x, ast.Global) for nm in x.names}
+    for nm in names:
+        if nm in info.params or (info.counts.get(nm, 0) and nm not in declared):
+            return False
+        if any(isinstance(x, ast.Name) and x.id == nm for x in ast.walk(fn)) and nm not in declared and nm in written:
+            return False
+    ids = {id(x): x for x in subs}
+
+    class Rp(ast.NodeTransformer):
+        def visit_Subscript(self, n):
+            if id(n) in ids:
+                return ast.copy_location(ast.Name(id=n.slice.value, ctx=n.ctx), n)
+            return self.generic_visit(n)
+    Rp().visit(fn)
+    for asg in [n for n in ast.walk(fn) if isinstance(n, ast.Assign)]:
+        if len(asg.targets) == 1 and isinstance(asg.targets[0], ast.Name) and asg.targets[0].id in aliases and is_globals_call(asg.value):
+            _remove_stmt(fn, asg)
+    need = sorted(written - declared)
+    if need:
+        doc = 1 if fn.body and isinstance(fn.body[0], ast.Expr) and isinstance(fn.body[0].value, ast.Constant) and isinstance(fn.body[0].value.value, str) else 0
+        fn.body.insert(doc, ast.Global(names=need))
+    ast.fix_missing_locations(fn)
+    return True
+
+
 def _forward_temps(fn):
     """t = E ; TARGET = t      ->  TARGET = E        (adjacent statements; t bound once and read once - by that copy; TARGET may be a global, an
     attribute or a subscript whose own sub-expressions are effect free)"""
@@ -2826,6 +2917,8 @@ def simplify_function(fn, ctx, inliner, cls):
         changed |= _induction_vars(fn)
         changed |= _membership_loops(fn)
         changed |= _eafp_unpack(fn)
+        changed |= _globals_subscripts(fn)
+        changed |= _yield_from_genexp(fn)
         if _propagate_locals(fn, ctx):
             changed = True
         elif _record_dicts(fn):
